@@ -22,7 +22,7 @@ PID = 'C18'
 
 META = {
     'technique': 'forward abstract interpretation (clamp-idiom lattice) of the two quantizer cells over the event-CFG of the rate-control kernel and the recode decision, with callee may-store summaries from the call graph and reaching-definition classification of locals; table-subscript classification; who-writes inventory of the cells',
-    'text': 'Decides that on every path through the rate-control kernel and the recode decision the frame quantizer index and the picture QP that are handed to the coding stages were last produced by a clamp to the configured [min_qp_allowed, max_qp_allowed] (or are the configured QP of the fixed-QP mode), for every rate-control mode and every branch - deleting a clamp, adding a late tweak after it, or assigning from an unclamped helper is reported with the path. It does not decide that the clamped values are the right ones, nor block / segment level deltas.',
+    'text': 'Decides that on every path through the rate-control kernel and the recode decision the frame quantizer index and the picture QP that are handed to the coding stages were last produced by a clamp to the configured [min_qp_allowed, max_qp_allowed] (or are the configured QP of the fixed-QP mode), for every rate-control mode and every branch - deleting a clamp, adding a late tweak after it, or assigning from an unclamped helper is reported with the path. It does not decide that the clamped values are the right ones, nor block / segment level deltas. Also decided: the bounds themselves are the user's - for every rate-control mode copy_api_from_app takes min/max_qp_allowed over from the caller (the full-range override is reachable only for fixed-QP encoding).',
     'note': 'the qp-file path stores a caller-supplied per-picture QP after only logging that it is out of range: recorded finding; svt_av1_set_quantizer is dead code and ignored',
     'ref': 'DESIGN.md section 5 C18',
 }
@@ -326,3 +326,29 @@ def run(P, rep, tier):
                           'stored whatever its value: the range test only logs a warning, and picture_qp then indexes quantizer_to_qindex[64] out of bounds')
             rep.ob('C18.UPSTREAM', '%s/%s<-%s' % (f.name, lf.split('.')[0], pstr(rhs)[:40] if rhs is not None else pstr(e)[:40]), ok, f.loc(ev), why)
     rep.floor('C18.UPSTREAM', 4)
+
+    # ---------------- PLUMB: the bounds the clamps use are the bounds the user configured.  copy_api_from_app may replace them
+    # by the full range only for fixed-QP encoding (rate_control_mode == 0); for every rate-control mode the members are copies
+    # of the caller's values.  Decided by conditional constant propagation of copy_api_from_app under rate_control_mode = 1, 2.
+    from rules.C20 import sccp, _ev
+    cap = P.fn('copy_api_from_app')
+    RCM = 'EbSvtAv1EncConfiguration.rate_control_mode'
+    npl = 0
+    for mode in (1, 2):
+        ins, tr = sccp(cap, {RCM: mode})
+        for fld in (CFG_MIN, CFG_MAX):
+            sts = [ev for ev in cap.events(('st',)) if ev['e'][0] == 'a' and strip(ev['e'][2])[0] == 'm' and strip(ev['e'][2])[1] == fld and ev['b'] in ins]
+            if not sts:
+                rep.ob('C18.PLUMB', 'copy_api_from_app/%s|rc=%d' % (fld.split('.')[1], mode), False, cap.loc(),
+                       'with rate_control_mode = %d no store to static_config.%s is reachable: the configured bound is never taken over' % (mode, fld.split('.')[1]))
+                npl += 1
+                continue
+            for ev in sts:
+                npl += 1
+                val = _ev(ev['e'][3], {RCM: mode}, dict(cap.state_at(ins, tr, ev) or ()))
+                ok = val is None and fld in fields_in(ev['e'][3])
+                rep.ob('C18.PLUMB', 'copy_api_from_app/%s|rc=%d#%d' % (fld.split('.')[1], mode, npl), ok, cap.loc(ev),
+                       ('with rate_control_mode = %d static_config.%s is the caller\'s value' % (mode, fld.split('.')[1])) if ok else
+                       ('with rate_control_mode = %d static_config.%s evaluates to %s instead of the caller\'s value: every clamp then uses bounds the user did not configure'
+                        % (mode, fld.split('.')[1], val if val is not None else pstr(strip(ev['e'][3]))[:40])))
+    rep.floor('C18.PLUMB', 4)
